@@ -239,7 +239,7 @@ def r3(repo, run):
                 verdicts.add(('bad', '!extend falls back to a plain ConfigList(self) on a path that has already detached the target from the accumulated tree: the older value is lost although nothing was extended [%s]' % tr.describe(p, 4)))
             if p.status == 'return' and not exts and not first and not missing and not (not missing_raises and [f for f in fetched if tr.fact(p, "hasattr(%s, 'extend')" % f, False)]):
                 verdicts.add(('bad', 'a path returns %s without growing the older list [%s]' % (ret[:40] if ret else None, tr.describe(p, 4))))
-        if not n_ext:
+        if not n_ext and not any(v[0] == 'bad' for v in verdicts):
             raise AnalysisError('%s: <node>.extend(...) not recognised' % q)
         if missing_raises and not any(v == ('ok', 'missing target: raises') for v in verdicts) and not any(v[0] == 'bad' for v in verdicts):
             verdicts.add(('bad', '!append does not fail when there is no previous list at its path'))
